@@ -7,14 +7,15 @@ from vlib.harness import Sub
 
 PROPERTY = "C06"
 RULE = ("Hypothesis lists of operations (insert same-/wrong-shape Array or Vector, replace, update good/bad, del, pop, "
-        "same object under a second key, shallow bystander copy, clear+update on the empty group, index by int / negative int / stepped slice / bool mask (ndarray, Array) / integer array with repeats "
+        "(also same row count but shape (n,2) / (n,1) / 0-d), same object under a second key, shallow bystander copy, clear+update on the empty group or the constructor with mixed items, index by int / negative int / stepped slice / bool mask (ndarray, Array) / integer array with repeats "
         "(ndarray, Array, list) / empty index, sortby(member), sortby(permutation)) executed on a Datagroup and on a "
         "numpy model {member -> component arrays, unit}; after every step all member shapes must be equal and every "
         "member/component must equal model[index]; a hidden unique row-id member gives the provenance of each row "
         "after sortby. non-trivial = history with >=1 Vector member and >=1 mask / integer-array / sort step; "
         "distinct = distinct canonical JSON of the op list.")
 ASSUMPTIONS = [
-    "numpy indexing semantics are the reference for every index object",
+    "numpy indexing semantics are the reference for every valid index object; out-of-range indices are not judged",
+    "'rejected' means any exception; the dtype of selected members is not judged (the property promises values, units, names)",
     "sortby ties may be broken in any order: key column sorted + row multiset preserved + rows intact is asserted",
     "replacing the only member by one of another shape is left unspecified; scalar (0-d) groups are not continued",
     "index Arrays are dimensionless int32/int64/bool (what Array.__getitem__ documents)",
@@ -38,26 +39,34 @@ val_st = st.fixed_dictionaries({
     "seed": st.integers(0, 10 ** 6),
     "dn": st.sampled_from([0, 0, 0, 0, 1, -1, 2]),      # length offset: non-zero = wrong shape
     "ties": st.booleans(),
+    # same number of rows but another shape: (n, 2), (n, 1), or a 0-d value
+    "form": st.sampled_from(["1d", "1d", "1d", "1d", "1d", "1d", "nx2", "nx1", "0d"]),
 })
 key_st = st.sampled_from(KEYS)
 idx_st = st.one_of(
-    st.fixed_dictionaries({"t": st.just("int"), "i": st.integers(-40, 40)}),
+    st.fixed_dictionaries({"t": st.just("int"), "i": st.integers(-40, 40), "oob": st.integers(0, 7).map(lambda x: x == 0)}),
     st.fixed_dictionaries({"t": st.just("slice"), "a": st.one_of(st.none(), st.integers(-12, 12)),
                            "b": st.one_of(st.none(), st.integers(-12, 12)),
                            "s": st.sampled_from([None, 1, 2, 3, -1, -2])}),
     st.fixed_dictionaries({"t": st.sampled_from(["mask_nd", "mask_arr"]),
                            "bits": st.lists(st.booleans(), min_size=40, max_size=40)}),
     st.fixed_dictionaries({"t": st.sampled_from(["ints_nd", "ints_arr", "ints_list", "ints_arr32"]),
-                           "ii": st.lists(st.integers(-40, 40), min_size=0, max_size=12)}),
+                           "ii": st.lists(st.integers(-40, 40), min_size=0, max_size=12),
+                           "oob": st.integers(0, 9).map(lambda x: x == 0)}),
     st.fixed_dictionaries({"t": st.just("empty")}),
     # one persistent mask object per history, rewritten in place before each use (ndarray or wrapped in one Array)
     st.fixed_dictionaries({"t": st.sampled_from(["mask_reuse_nd", "mask_reuse_arr"]),
                            "bits": st.lists(st.booleans(), min_size=40, max_size=40)}),
 )
+ints_idx_st = st.fixed_dictionaries({"t": st.sampled_from(["ints_nd", "ints_arr", "ints_list", "ints_arr32"]),
+                                     "ii": st.lists(st.integers(-40, 40), min_size=2, max_size=12),
+                                     "oob": st.just(False)})
 reuse_idx_st = st.fixed_dictionaries({"t": st.sampled_from(["mask_reuse_nd", "mask_reuse_arr"]),
                                       "bits": st.lists(st.booleans(), min_size=40, max_size=40)})
 op_st = st.one_of(
     st.fixed_dictionaries({"op": st.just("index"), "idx": reuse_idx_st, "adopt": st.just(False)}),
+    st.fixed_dictionaries({"op": st.just("index"), "idx": ints_idx_st, "adopt": st.booleans()}),
+    st.fixed_dictionaries({"op": st.just("index"), "idx": ints_idx_st, "adopt": st.booleans()}),
     st.fixed_dictionaries({"op": st.just("insert"), "key": key_st, "val": val_st}),
     st.fixed_dictionaries({"op": st.just("insert"), "key": key_st, "val": val_st}),
     st.fixed_dictionaries({"op": st.just("update"), "items": st.lists(st.tuples(key_st, val_st), min_size=1, max_size=3)
@@ -68,11 +77,12 @@ op_st = st.one_of(
     st.fixed_dictionaries({"op": st.just("alias"), "which": st.integers(0, 10), "key": key_st}),
     st.fixed_dictionaries({"op": st.just("bystander")}),
     st.fixed_dictionaries({"op": st.just("clear_update"), "n": st.integers(1, 6), "kw": st.booleans(),
+                           "how": st.sampled_from(["update", "ctor"]),
                            "items": st.lists(st.tuples(key_st, val_st), min_size=1, max_size=3)
                           .map(lambda l: [list(x) for x in l])}),
     st.fixed_dictionaries({"op": st.just("sortby_key"), "which": st.integers(0, 10)}),
     st.fixed_dictionaries({"op": st.just("sortby_perm"), "seed": st.integers(0, 10 ** 6),
-                           "as": st.sampled_from(["list", "nd"])}),
+                           "as": st.sampled_from(["list", "nd", "repeats"])}),
 )
 case_st = st.fixed_dictionaries({
     "n": st.integers(1, 12),
@@ -94,6 +104,13 @@ def _mk(v, n):
     nn = max(n + v["dn"], 0)
     ncomp = v["nvec"] if v["kind"] == "V" else 1
     comps = [_values(v, nn, c) for c in range(ncomp)]
+    form = v.get("form", "1d")
+    if form == "nx2":
+        comps = [np.stack([c, c + 1], axis=1) for c in comps]
+    elif form == "nx1":
+        comps = [c.reshape(-1, 1) for c in comps]
+    elif form == "0d":
+        comps = [np.array(c[0] if len(c) else 0, dtype=c.dtype) for c in comps]
     if v["kind"] == "A":
         obj = osyris.Array(values=comps[0].copy(), unit=v["unit"])
     else:
@@ -110,13 +127,15 @@ def _comps_of(obj):
 def _np_index(idx, n):
     t = idx["t"]
     if t == "int":
-        return idx["i"]
+        # mapped into the valid range -n..n-1 unless the case asks for an out-of-range index
+        return idx["i"] if (idx.get("oob") or n < 1) else ((idx["i"] + n) % (2 * n)) - n
     if t == "slice":
         return slice(idx["a"], idx["b"], idx["s"])
     if t in ("mask_nd", "mask_arr", "mask_reuse_nd", "mask_reuse_arr"):
         return np.array(idx["bits"][:n], dtype=bool)
     if t.startswith("ints"):
-        return np.array([i for i in idx["ii"]], dtype=np.int32 if t == "ints_arr32" else np.int64)
+        ii = idx["ii"] if (idx.get("oob") or n < 1) else [((i + n) % (2 * n)) - n for i in idx["ii"]]
+        return np.array(ii, dtype=np.int32 if t == "ints_arr32" else np.int64)
     return np.array([], dtype=np.int64)
 
 
@@ -170,10 +189,13 @@ def _check_group(dg, model, r, where, order_keys=True, names=True):
                 if g.shape != w.shape or not np.array_equal(g, w):
                     r.bad(["values-misaligned"], f"{where}: member {k} comp {ci}: got {g.tolist()} want {w.tolist()}")
                     break
-                if g.dtype != w.dtype:
-                    r.bad(["dtype-changed"], f"{where}: member {k} dtype {g.dtype} != {w.dtype}")
             if obj.unit != osyris.units(m["unit"]):
                 r.bad(["unit-lost"], f"{where}: member {k} unit {obj.unit} != {m['unit']}")
+            if isinstance(obj, osyris.Vector):
+                for cn, c in obj._xyz.items():
+                    if c.unit != osyris.units(m["unit"]):
+                        r.bad(["unit-lost", "component"], f"{where}: member {k} component {cn} unit {c.unit} != {m['unit']}")
+                        break
             if names and not m.get("alias") and obj.name != k:
                 r.bad(["name-lost"], f"{where}: member {k} has name {obj.name!r}")
     except Exception as e:
@@ -199,7 +221,7 @@ def history(case, r):
     if case["rid_first"]:
         add_rid()
     for k, v in case["init"]:
-        v = dict(v, dn=0)
+        v = dict(v, dn=0, form="1d")
         obj, m = _mk(v, n)
         dg[k] = obj
         model[k] = m
@@ -214,10 +236,22 @@ def history(case, r):
         where = f"step {i} {op['op']}"
         o = op["op"]
         cur_n = len(model["_rid"]["comps"][0]) if "_rid" in model else n
+        if "_rid" in model and len(set(model["_rid"]["comps"][0].tolist())) < cur_n:
+            # a selection with repeats duplicated rows: give every row a fresh unique id (a plain replacement of a member),
+            # so that the provenance of rows stays decidable when members inserted later differ between the duplicates
+            fresh = np.arange(cur_n, dtype=np.int64) * 3 + 5 + 1000 * (i + 1)
+            try:
+                dg["_rid"] = osyris.Array(values=fresh.copy())
+            except Exception as e:
+                r.bad(["good-insert-raises", type(e).__name__], f"{where} (fresh row ids): {e!r}")
+                break
+            model["_rid"] = {"kind": "A", "unit": "dimensionless", "comps": [fresh.copy()]}
         if o == "insert":
             obj, m = _mk(op["val"], cur_n)
-            shape = (len(m["comps"][0]),)
+            shape = tuple(m["comps"][0].shape)
             cur_shape = (cur_n,)
+            if shape != cur_shape and len(shape) != 1:
+                r.label("wrong_shape_same_rows" if (shape and shape[0] == cur_n) else "wrong_shape_0d")
             before = _snapshot(model)
             try:
                 dg[op["key"]] = obj
@@ -229,9 +263,7 @@ def history(case, r):
                 if raised is None:
                     r.bad(["misshaped-accepted"], f"{where}: shape {shape} into group of shape {cur_shape}")
                     break
-                if not isinstance(raised, ValueError):
-                    r.bad(["insert-wrong-exception", type(raised).__name__], f"{where}: {raised!r}")
-                model = before
+                model = before      # rejected (any exception): the group must be unchanged (checked below)
             else:
                 if raised is not None:
                     r.bad(["good-insert-raises", type(raised).__name__], f"{where}: {raised!r}")
@@ -242,7 +274,7 @@ def history(case, r):
             items = [(k, _mk(v, cur_n)) for k, v in op["items"]]
             d = {k: om[0] for k, om in items}
             dm = {k: om[1] for k, om in items}
-            bad_keys = [k for k in d if len(dm[k]["comps"][0]) != cur_n]
+            bad_keys = [k for k in d if tuple(dm[k]["comps"][0].shape) != (cur_n,)]
             before = _snapshot(model)
             try:
                 if op["kw"]:
@@ -257,8 +289,6 @@ def history(case, r):
                 if raised is None:
                     r.bad(["update-misshaped-accepted"], f"{where}: keys {bad_keys}")
                     break
-                if not isinstance(raised, ValueError):
-                    r.bad(["insert-wrong-exception", type(raised).__name__], f"{where}: {raised!r}")
                 # sequential prefix or atomic: adopt whichever the group shows, but demand consistency
                 seq = dict(before)
                 for k in d:
@@ -303,12 +333,20 @@ def history(case, r):
                 raised = None
             except Exception as e:
                 raised = e
-            r.label("idx_" + idx["t"])
             if not valid:
-                if raised is None:
-                    r.bad(["invalid-index-accepted"], f"{where}: index {idx} on length {cur_n}")
-                    break
+                # out-of-range indices: numpy's business, not part of the property; nothing is adopted
+                r.label("idx_out_of_range")
                 continue
+            r.label("idx_" + idx["t"])
+            if idx["t"].startswith("ints"):
+                if len(ni) >= 2:
+                    r.label("idx_ints_valid_len2")
+                if len(ni) and int(np.min(ni)) < 0:
+                    r.label("idx_ints_negative")
+                if len(set(np.asarray(ni).tolist())) < len(ni):
+                    r.label("idx_ints_repeats")
+            if idx["t"] == "int" and ni < 0:
+                r.label("idx_negative_int")
             if raised is not None:
                 r.bad(["index-raises", type(raised).__name__], f"{where}: index {idx} on length {cur_n}: {raised!r}")
                 break
@@ -358,26 +396,34 @@ def history(case, r):
             items = [(k, _mk(v, op["n"])) for k, v in op["items"]]
             d = {k: om[0] for k, om in items}
             dm = {k: om[1] for k, om in items}
-            lens = {len(m["comps"][0]) for m in dm.values()}
-            dg.clear()
+            lens = {tuple(m["comps"][0].shape) for m in dm.values()}
+            if tuple(next(iter(dm.values()))["comps"][0].shape) == ():
+                r.label("scalar_group_not_continued")      # the property is about non-scalar groups
+                break
+            how = op.get("how", "update")
             model = {}
             try:
-                if op["kw"]:
-                    dg.update(**d)
+                if how == "ctor":
+                    # the constructor is an insertion path too
+                    dg = osyris.Datagroup(**d) if op["kw"] else osyris.Datagroup(d)
                 else:
-                    dg.update(d)
+                    dg.clear()
+                    if op["kw"]:
+                        dg.update(**d)
+                    else:
+                        dg.update(d)
                 raised = None
             except Exception as e:
                 raised = e
             if len(lens) > 1:
                 r.label("wrong_shape_insert")
-                r.label("update_on_empty_mixed")
+                r.label("update_on_empty_mixed" if how == "update" else "constructor_mixed")
                 if raised is None:
-                    r.bad(["update-misshaped-accepted", "empty-group"],
-                          f"{where}: items of lengths {sorted(lens)} all accepted by update() on an empty group")
+                    r.bad(["update-misshaped-accepted", "empty-group" if how == "update" else "constructor"],
+                          f"{where}: items of shapes {sorted(lens)} all accepted by {how} on an empty group")
                     break
-                if not isinstance(raised, ValueError):
-                    r.bad(["insert-wrong-exception", type(raised).__name__], f"{where}: {raised!r}")
+                if how == "ctor":
+                    break               # no group was constructed
             elif raised is not None:
                 r.bad(["good-insert-raises", type(raised).__name__], f"{where}: {raised!r}")
                 break
@@ -387,8 +433,8 @@ def history(case, r):
             except Exception as e:
                 r.bad(["observe-raises", type(e).__name__], f"{where}: {e!r}")
                 break
-            if len(model) == 0:
-                break
+            if len(model) == 0 or len(shp) != 1:
+                break                   # empty, scalar or 2-d group: the row-id model below does not apply
             nn = shp[0] if shp else 0
             rid = np.arange(nn, dtype=np.int64) * 3 + 5
             try:
@@ -430,8 +476,13 @@ def history(case, r):
                 r.bad(["sort-key-not-sorted"], f"{where} by {k}: key column {keycol.tolist()}")
                 break
         elif o == "sortby_perm":
-            perm = np.random.RandomState(op["seed"]).permutation(cur_n)
-            key = perm.tolist() if op["as"] == "list" else perm
+            rng_p = np.random.RandomState(op["seed"])
+            perm = rng_p.permutation(cur_n)
+            if op["as"] == "repeats" and cur_n >= 1:
+                # an index list of the same length with repeated and negative entries
+                perm = rng_p.randint(-cur_n, cur_n, size=cur_n)
+                r.label("sortby_index_repeats")
+            key = perm if op["as"] == "nd" else perm.tolist()
             try:
                 dg.sortby(key)
             except Exception as e:
@@ -456,4 +507,6 @@ def history(case, r):
 
 def subs(ctx):
     return [Sub("history", history, strategy=case_st, quick=500, thorough=4000,
-                required={"has_vector": 0.3, "has_selection": 0.3, "wrong_shape_insert": 0.1, "sortby_key": 0.1})]
+                required={"has_vector": 0.3, "has_selection": 0.3, "wrong_shape_insert": 0.1, "sortby_key": 0.1,
+                          "idx_ints_valid_len2": 0.2, "idx_ints_negative": 0.15, "idx_ints_repeats": 0.1,
+                          "wrong_shape_same_rows": 0.08, "constructor_mixed": 0.03})]
